@@ -375,7 +375,8 @@ def run_property(prop_id, mod, tier, seed):
         elif r["verdict"] == "inconclusive":
             inconclusive.append(r)
     lines = []
-    for k, r in known_hits:
+    for kid in sorted({k["id"] for k, _ in known_hits}):
+        k = next(k for k, _ in known_hits if k["id"] == kid)
         lines.append(f"KNOWN-FINDING: property={prop_id} {k['id']} {k['what']}")
     os.makedirs(os.path.join(REPLAYS, prop_id), exist_ok=True)
     for i, r in enumerate(violations):
